@@ -31,11 +31,15 @@ const modPath = "github.com/reactivego/ivg"
 
 type unsupported struct{ why string }
 
+// pathPanics: the instruction being translated panics on this path (a call of the nil function)
+type pathPanics struct{}
+
 func fail(format string, a ...interface{}) { panic(unsupported{fmt.Sprintf(format, a...)}) }
 
 // ---------- types ----------
 
 type translator struct {
+	specs   map[string]*fnInfo // specialised translations by key
 	ifaces  map[string]*types.Named // lean name -> named interface type
 	iorder  []string
 	cur     *fnInfo
@@ -68,9 +72,15 @@ type fnInfo struct {
 	retType string
 	params  string
 	calls   map[*ssa.Function]bool
+	callsFi map[*fnInfo]bool
+	written map[int]bool          // slice parameters whose elements the function stores into: the new list is an extra result
+	escapes map[int]bool          // slice parameters that are appended to, stored, returned or handed on to such a parameter
+	spec    map[int]*ssa.Function // function-typed parameters fixed to a function (nil = the nil function)
+	specKey string
 	gdeps   map[*types.Package]bool
 	ifaces  map[string]bool
 	retConcrete map[int]types.Type // interface-typed results that always box one concrete type
+	needInh bool // mentions `default` at an abstract object type (a panic leaf, exhausted fuel): needs [Inhabited R]
 	fuel    bool // takes a fuel argument (has a loop or recursion, or calls something that does)
 	selfRec bool
 }
@@ -171,6 +181,8 @@ func (t *translator) leanType(ty types.Type) string {
 			parts = append(parts, t.leanType(u.At(i).Type()))
 		}
 		return "(" + strings.Join(parts, " × ") + ")"
+	case *types.Signature:
+		return "Go.FnRef" // a function value that is only handed on: the name of the function
 	case *types.Struct:
 		// an anonymous struct type gets a name from its field names
 		var fs []string
@@ -310,6 +322,14 @@ type ptrv struct {
 }
 
 type sym struct {
+	backLoc   loopLoc // for a backed slice: the array location and its generation when the slice was taken; the slice value
+	backGen   int     // is the list of the array's elements THEN, so it must not be used after the array was written
+	wcell     int // a slice parameter that is written: the cell holding the current list
+	backPtr   *ptrv  // the array a backed slice aliases …
+	backLo    string // … from this index on
+	backed    bool // a slice that aliases an array and may have spare capacity: appending to it would write into the array
+	fromParam int  // 1 + index of the slice parameter this slice value comes from (0: none)
+	fnNil     bool // the nil function value
 	boxed bool // a concrete value converted to an interface: may only be returned
 	iface bool
 	expr  string
@@ -342,7 +362,8 @@ type loopInfo struct {
 type state struct {
 	env    map[ssa.Value]sym
 	cells  map[int]*cell
-	frozen map[loopLoc]bool // arrays a live slice aliases
+	frozen map[loopLoc]int // arrays that slices alias: generation, incremented by every store into the array
+	constCond map[*ssa.BinOp]string
 }
 
 func (s *state) clone() *state {
@@ -354,9 +375,15 @@ func (s *state) clone() *state {
 		c.cells[k] = &cell{id: v.id, param: v.param, root: v.root.clone()}
 	}
 	if s.frozen != nil {
-		c.frozen = map[loopLoc]bool{}
-		for k := range s.frozen {
-			c.frozen[k] = true
+		c.frozen = map[loopLoc]int{}
+		for k, v := range s.frozen {
+			c.frozen[k] = v
+		}
+	}
+	if s.constCond != nil {
+		c.constCond = map[*ssa.BinOp]string{}
+		for k, v := range s.constCond {
+			c.constCond[k] = v
 		}
 	}
 	return c
@@ -376,6 +403,8 @@ type ctx struct {
 	loops    map[*ssa.BasicBlock]*loopInfo
 	lstack   []*loopInfo
 	loopSeq  int
+	rerun    bool
+	usesDefault bool
 	retConcrete map[int]types.Type
 	fuelVar  string // the fuel variable in scope ("" when the function has not needed fuel yet)
 	usesFuel bool
@@ -516,6 +545,10 @@ func (c *ctx) load(p *ptrv) string {
 			continue
 		}
 		whole := c.materialize(p.cell, n, d)
+		if _, isSl := n.typ.Underlying().(*types.Slice); isSl {
+			n = &node{typ: st.elemTy, expr: "(Go.sliceGet " + whole + " " + st.idx + ")"}
+			continue
+		}
 		n = &node{typ: st.elemTy, expr: "(Go.arrGet " + whole + " " + st.idx + ")"}
 	}
 	return c.materialize(p.cell, n, len(p.path))
@@ -560,6 +593,12 @@ func (c *ctx) store(p *ptrv, val string) {
 			n = c.child2(p.cell, n, st, d, d == len(p.path)-1)
 			continue
 		}
+		if _, isSl := n.typ.Underlying().(*types.Slice); isSl && d == len(p.path)-1 {
+			whole := c.materialize(p.cell, n, d)
+			n.kids = nil
+			n.expr = "(Go.sliceSet " + whole + " " + st.idx + " " + val + ")"
+			return
+		}
 		if _, isArr := n.typ.Underlying().(*types.Array); !isArr {
 			fail("store through a non-array index")
 		}
@@ -594,6 +633,12 @@ func (c *ctx) store(p *ptrv, val string) {
 func (c *ctx) constExpr(k *ssa.Const) sym {
 	ty := k.Type()
 	if k.Value == nil {
+		if _, isSig := ty.Underlying().(*types.Signature); isSig {
+			return sym{fnNil: true, typ: ty}
+		}
+		if _, isI := ty.Underlying().(*types.Interface); isI && !isErrorType(ty) {
+			return sym{fnNil: true, typ: ty} // the nil interface value: only compared against
+		}
 		return sym{expr: c.t.zero(ty), typ: ty}
 	}
 	if isString(ty) && k.Value.Kind() == constant.String {
@@ -638,7 +683,23 @@ func leanString(x string) string {
 	return "(Go.strOfBytes [" + strings.Join(parts, ", ") + "])"
 }
 
+// cur: the current value of a slice parameter that lives in a cell
+func (c *ctx) cur(s *state, v sym) sym {
+	if v.wcell > 0 {
+		v.expr = c.load(&ptrv{cell: s.cells[v.wcell]})
+	}
+	return v
+}
+
 func (c *ctx) val(s *state, v ssa.Value) sym {
+	r := c.cur(s, c.val0(s, v))
+	if r.backed && r.backGen != 0 && s.frozen[r.backLoc] != r.backGen {
+		fail("use of a slice after the array it aliases was written")
+	}
+	return r
+}
+
+func (c *ctx) val0(s *state, v ssa.Value) sym {
 	switch x := v.(type) {
 	case *ssa.Const:
 		return c.constExpr(x)
@@ -819,6 +880,19 @@ func (c *ctx) binop(s *state, b *ssa.BinOp) string {
 		}
 		return fmt.Sprintf("(%s %s (%d : %s))", x.expr, op, n, c.t.leanType(ty))
 	case token.EQL, token.NEQ, token.LSS, token.LEQ, token.GTR, token.GEQ:
+		if x.fnNil || y.fnNil || x.fn != nil || y.fn != nil || x.iface || y.iface {
+			// nil tests on function values and interface objects are decided at translation time: a known function and
+			// an abstract object are not nil
+			xn, yn := x.fnNil, y.fnNil
+			if !(xn || x.fn != nil || x.iface) || !(yn || y.fn != nil || y.iface) || (!xn && !yn) {
+				fail("comparison of function or interface values")
+			}
+			same := xn == yn
+			if (b.Op == token.EQL) == same {
+				return "true"
+			}
+			return "false"
+		}
 		var e string
 		if fl != "" {
 			switch b.Op {
@@ -984,7 +1058,14 @@ func (c *ctx) instr(s *state, in ssa.Instruction, d int) {
 	switch x := in.(type) {
 	case *ssa.DebugRef:
 	case *ssa.BinOp:
-		bind(x, c.binop(s, x))
+		e := c.binop(s, x)
+		if e == "true" || e == "false" {
+			if s.constCond == nil {
+				s.constCond = map[*ssa.BinOp]string{}
+			}
+			s.constCond[x] = e
+		}
+		bind(x, e)
 	case *ssa.UnOp:
 		switch x.Op {
 		case token.MUL: // load
@@ -1066,13 +1147,28 @@ func (c *ctx) instr(s *state, in ssa.Instruction, d int) {
 			np := &ptrv{cell: s.cells[p.ptr.cell.id], path: append(append([]step{}, p.ptr.path...), step{field: -1, idx: idx, cidx: ci, elemTy: arr.Elem()})}
 			s.env[x] = sym{ptr: np, typ: x.Type()}
 		case *types.Slice:
-			// element of a slice VALUE: readable only
 			sl := c.val(s, x.X)
+			if sl.fromParam > 0 && !c.info.written[sl.fromParam-1] {
+				// remember that an element address was taken; a store through it marks the parameter as written (next pass)
+				idx0, _ := c.indexNat(s, x.Index)
+				c.ncell++
+				cl := &cell{id: c.ncell, param: -2, root: &node{typ: xt.Elem(), expr: "(Go.sliceGet " + sl.expr + " " + idx0 + ")"}}
+				s.cells[cl.id] = cl
+				s.env[x] = sym{ptr: &ptrv{cell: cl}, typ: x.Type(), fromParam: sl.fromParam}
+				return
+			}
+			if sl.wcell > 0 {
+				cl := s.cells[sl.wcell]
+				idx, _ := c.indexNat(s, x.Index)
+				s.env[x] = sym{ptr: &ptrv{cell: cl, path: []step{{field: -1, idx: idx, cidx: -1, elemTy: xt.Elem()}}}, typ: x.Type()}
+				return
+			}
+			// element of a slice VALUE: readable only
 			idx, _ := c.indexNat(s, x.Index)
 			c.ncell++
 			cl := &cell{id: c.ncell, param: -2, root: &node{typ: xt.Elem(), expr: "(Go.sliceGet " + sl.expr + " " + idx + ")"}}
 			s.cells[cl.id] = cl
-			s.env[x] = sym{ptr: &ptrv{cell: cl}, typ: x.Type()}
+			s.env[x] = sym{ptr: &ptrv{cell: cl}, typ: x.Type(), fromParam: sl.fromParam}
 		default:
 			fail("index address on %s", x.X.Type())
 		}
@@ -1082,6 +1178,11 @@ func (c *ctx) instr(s *state, in ssa.Instruction, d int) {
 			fail("store through an unknown pointer")
 		}
 		if p.ptr.cell.param == -2 {
+			if p.fromParam > 0 {
+				c.info.written[p.fromParam-1] = true
+				c.rerun = true
+				return // this pass is discarded (see translateSpec)
+			}
 			fail("store into a slice element")
 		}
 		if p.ptr.cell.param == -3 && !c.inInit {
@@ -1096,13 +1197,22 @@ func (c *ctx) instr(s *state, in ssa.Instruction, d int) {
 			if len(pp.path) > 0 {
 				key = pp.path[0].name
 			}
-			if s.frozen[loopLoc{pp.cell.id, key}] || s.frozen[loopLoc{pp.cell.id, ""}] {
-				fail("store into an array that a live slice aliases")
+			// slices taken from this array earlier hold its former elements: they go stale (using one fails)
+			for _, l := range []loopLoc{{pp.cell.id, key}, {pp.cell.id, ""}} {
+				if _, ok := s.frozen[l]; ok {
+					s.frozen[l]++
+				}
 			}
 		}
 		v := c.val(s, x.Val)
 		if v.ptr != nil || v.fn != nil || v.iface || v.boxed {
 			fail("storing a pointer, function or interface value")
+		}
+		if v.backed {
+			fail("storing a slice that aliases an array")
+		}
+		if v.fromParam > 0 {
+			c.info.escapes[v.fromParam-1] = true
 		}
 		c.store(pp, v.expr)
 	case *ssa.Field:
@@ -1112,10 +1222,20 @@ func (c *ctx) instr(s *state, in ssa.Instruction, d int) {
 	case *ssa.Index:
 		v := c.val(s, x.X)
 		idx, _ := c.indexNat(s, x.Index)
+		if isString(x.X.Type()) {
+			bind(x, "(Go.strGet "+v.expr+" "+idx+")")
+			return
+		}
 		if _, ok := x.X.Type().Underlying().(*types.Array); !ok {
 			fail("index on %s", x.X.Type())
 		}
 		bind(x, "(Go.arrGet "+v.expr+" "+idx+")")
+	case *ssa.Lookup:
+		if !isString(x.X.Type()) || x.CommaOk {
+			fail("*ssa.Lookup")
+		}
+		idx, _ := c.indexNat(s, x.Index)
+		bind(x, "(Go.strGet "+c.val(s, x.X).expr+" "+idx+")")
 	case *ssa.Extract:
 		v := c.val(s, x.Tuple)
 		if v.comps == nil {
@@ -1154,10 +1274,17 @@ func (c *ctx) instr(s *state, in ssa.Instruction, d int) {
 					key = pp.path[0].name
 				}
 				if s.frozen == nil {
-					s.frozen = map[loopLoc]bool{}
+					s.frozen = map[loopLoc]int{}
 				}
-				s.frozen[loopLoc{pp.cell.id, key}] = true
+				if _, ok := s.frozen[loopLoc{pp.cell.id, key}]; !ok {
+					s.frozen[loopLoc{pp.cell.id, key}] = 1
+				}
 				bind(x, fmt.Sprintf("(Go.slice (%s).toList %s %s)", whole, lo, hi))
+				r := s.env[x]
+				r.backed = true
+				r.backLoc, r.backGen = loopLoc{pp.cell.id, key}, s.frozen[loopLoc{pp.cell.id, key}]
+				r.backPtr, r.backLo = pp, lo
+				s.env[x] = r
 				return
 			}
 			pp := &ptrv{cell: s.cells[p.ptr.cell.id], path: p.ptr.path}
@@ -1180,6 +1307,13 @@ func (c *ctx) instr(s *state, in ssa.Instruction, d int) {
 				hi, _ = c.indexNat(s, x.High)
 			}
 			bind(x, fmt.Sprintf("(Go.slice %s %s %s)", v.expr, lo, hi))
+			r := s.env[x]
+			r.backed, r.fromParam = v.backed, v.fromParam
+			r.backLoc, r.backGen = v.backLoc, v.backGen
+			if x.Low == nil {
+				r.backPtr, r.backLo = v.backPtr, v.backLo
+			}
+			s.env[x] = r
 		default:
 			fail("slice of %s", x.X.Type())
 		}
@@ -1198,7 +1332,7 @@ func (c *ctx) instr(s *state, in ssa.Instruction, d int) {
 		}
 		s.env[x] = sym{expr: v.expr, typ: x.X.Type(), boxed: true}
 	case *ssa.TypeAssert, *ssa.ChangeInterface, *ssa.MakeClosure, *ssa.MakeMap, *ssa.MakeChan,
-		*ssa.MakeSlice, *ssa.Lookup, *ssa.MapUpdate, *ssa.Range, *ssa.Next, *ssa.Select, *ssa.Send, *ssa.Go, *ssa.Defer,
+		*ssa.MakeSlice, *ssa.MapUpdate, *ssa.Range, *ssa.Next, *ssa.Select, *ssa.Send, *ssa.Go, *ssa.Defer,
 		*ssa.RunDefers, *ssa.SliceToArrayPointer, *ssa.MultiConvert:
 		fail("%T", in)
 	default:
@@ -1216,6 +1350,12 @@ func (c *ctx) call(s *state, x *ssa.Call, d int) {
 		switch b.Name() {
 		case "append":
 			a0, a1 := c.val(s, com.Args[0]), c.val(s, com.Args[1])
+			if a0.backed {
+				fail("append to a slice that aliases an array (the written elements would be visible through the array)")
+			}
+			if a0.fromParam > 0 {
+				c.info.escapes[a0.fromParam-1] = true
+			}
 			e := fmt.Sprintf("(%s ++ %s)", a0.expr, a1.expr)
 			if isString(com.Args[1].Type()) {
 				e = fmt.Sprintf("(%s ++ Go.bytesOfStr %s)", a0.expr, a1.expr)
@@ -1243,6 +1383,9 @@ func (c *ctx) call(s *state, x *ssa.Call, d int) {
 		callee = f
 	} else {
 		v := c.val(s, com.Value)
+		if v.fnNil {
+			panic(pathPanics{}) // calling the nil function: this path panics
+		}
 		if v.fn == nil {
 			fail("dynamic call")
 		}
@@ -1260,7 +1403,20 @@ func (c *ctx) call(s *state, x *ssa.Call, d int) {
 	if len(callee.FreeVars) > 0 {
 		fail("closure with free variables")
 	}
-	ci := c.t.translate(callee)
+	var spec map[int]*ssa.Function
+	for i, a := range com.Args {
+		if _, isSig := a.Type().Underlying().(*types.Signature); isSig {
+			av := c.val(s, a)
+			if av.fn == nil && !av.fnNil {
+				fail("passing an unknown function value")
+			}
+			if spec == nil {
+				spec = map[int]*ssa.Function{}
+			}
+			spec[i] = av.fn
+		}
+	}
+	ci := c.t.translateSpec(callee, spec)
 	self := false
 	if ci.busy {
 		if callee != c.fn {
@@ -1279,13 +1435,26 @@ func (c *ctx) call(s *state, x *ssa.Call, d int) {
 			fail("calls %s, which returns an interface value", callee.String())
 		}
 		c.info.calls[callee] = true
+		c.info.callsFi[ci] = true
 	}
 	// arguments
+	type wb struct {
+		param int
+		av    sym
+	}
+	var writeBack []wb
 	var args []string
 	ptrArgs := map[int]*ptrv{}
 	for i, a := range com.Args {
 		av := c.val(s, a)
-		if _, isPtr := a.Type().Underlying().(*types.Pointer); isPtr {
+		if _, isSig := a.Type().Underlying().(*types.Signature); isSig {
+			continue // fixed by specialisation
+		}
+		_, isPtr := a.Type().Underlying().(*types.Pointer)
+		if av.iface && av.ptr != nil {
+			isPtr = true // an interface object is handed on by reference to where it lives
+		}
+		if isPtr {
 			if av.ptr == nil {
 				fail("passing an unknown pointer")
 			}
@@ -1305,6 +1474,9 @@ func (c *ctx) call(s *state, x *ssa.Call, d int) {
 				}
 				q := pp
 				if io.field >= 0 {
+					if av.iface {
+						fail("internal: field of an interface object")
+					}
 					st := a.Type().Underlying().(*types.Pointer).Elem().Underlying().(*types.Struct)
 					q = &ptrv{cell: pp.cell, path: append(append([]step{}, pp.path...), step{field: io.field, name: st.Field(io.field).Name(), cidx: -1})}
 				}
@@ -1315,12 +1487,40 @@ func (c *ctx) call(s *state, x *ssa.Call, d int) {
 		if av.ptr != nil || av.fn != nil || av.comps != nil || av.boxed || av.iface {
 			fail("passing a non-first-order value")
 		}
+		if ci.written[i] {
+			// the callee stores into the elements: the new list comes back as an extra result and is written back to where
+			// the slice lives
+			if self {
+				fail("recursion through a written slice parameter")
+			}
+			switch {
+			case av.backed && av.backPtr != nil:
+			case av.wcell > 0:
+			default:
+				fail("passing a slice whose elements the callee writes, of unknown origin")
+			}
+			writeBack = append(writeBack, wb{i, av})
+			args = append(args, av.expr)
+			continue
+		}
+		if av.backed || av.fromParam > 0 {
+			esc := self || ci.escapes[i]
+			if av.backed && esc {
+				fail("passing a slice that aliases an array to a function that appends to it, stores or returns it")
+			}
+			if av.fromParam > 0 && esc {
+				c.info.escapes[av.fromParam-1] = true
+			}
+		}
 		args = append(args, av.expr)
 	}
 	var iargs []string
 	for _, in := range sortedKeys(ci.ifaces) {
 		c.info.ifaces[in] = true
 		iargs = append(iargs, "I_"+in)
+	}
+	if ci.needInh {
+		c.usesDefault = true
 	}
 	if ci.fuel || self {
 		c.usesFuel = true
@@ -1355,6 +1555,29 @@ func (c *ctx) call(s *state, x *ssa.Call, d int) {
 		s.env[x] = sym{comps: comps, typ: x.Type()}
 	}
 	for j, io := range ci.outputs {
+		if ci.written[io.param] && io.field < 0 {
+			for _, w := range writeBack {
+				if w.param != io.param {
+					continue
+				}
+				res := proj(name, nres+j, k)
+				if w.av.wcell > 0 {
+					c.store(&ptrv{cell: s.cells[w.av.wcell]}, res)
+				} else {
+					// into the array the slice aliases (the array was frozen when it was sliced: this is the one permitted write)
+					bp := &ptrv{cell: s.cells[w.av.backPtr.cell.id], path: w.av.backPtr.path}
+					if bp.cell == nil {
+						fail("write-back into consumed memory")
+					}
+					whole := c.load(bp)
+					c.store(bp, "(Go.arrWriteBack "+whole+" "+w.av.backLo+" "+res+")")
+					if _, ok := s.frozen[w.av.backLoc]; ok {
+						s.frozen[w.av.backLoc]++
+					}
+				}
+			}
+			continue
+		}
 		pp := ptrArgs[io.param]
 		q := pp
 		if io.field >= 0 {
@@ -1391,8 +1614,11 @@ func (c *ctx) invoke(s *state, x *ssa.Call, d int) {
 	var args []string
 	for _, a := range com.Args {
 		av := c.val(s, a)
-		if av.ptr != nil || av.fn != nil || av.comps != nil || av.iface || av.boxed {
+		if av.ptr != nil || av.fn != nil || av.comps != nil || av.iface || av.boxed || av.backed {
 			fail("passing a non-first-order value to an interface method")
+		}
+		if av.fromParam > 0 {
+			c.info.escapes[av.fromParam-1] = true
 		}
 		args = append(args, av.expr)
 	}
@@ -1779,6 +2005,9 @@ func (c *ctx) backEdge(s *state, li *loopInfo, from *ssa.BasicBlock, d int) {
 
 // leaf: a final result, seen from inside a nested loop function
 func (c *ctx) leaf(e string) string {
+	if strings.Contains(e, "default") {
+		c.usesDefault = true
+	}
 	if len(c.lstack) > 0 && c.lstack[len(c.lstack)-1].sumWrt != nil {
 		return "Sum.inl " + e
 	}
@@ -1832,6 +2061,16 @@ func (c *ctx) blockFrom(s *state, b *ssa.BasicBlock, from *ssa.BasicBlock, onPat
 				condV, thenB, elseB = u.X, elseB, thenB
 			}
 			cond := c.val(s, condV)
+			if u, ok := condV.(*ssa.BinOp); ok {
+				// a test decided at translation time (nil tests, see binop): only the live branch exists
+				if e := s.constCond[u]; e == "true" {
+					c.block(s, thenB, b, onPath, d)
+					return
+				} else if e == "false" {
+					c.block(s, elseB, b, onPath, d)
+					return
+				}
+			}
 			s2 := s.clone()
 			fmt.Fprintf(&c.out, "%sif %s then\n", ind(d), cond.expr)
 			c.block(s, thenB, b, onPath, d+1)
@@ -1855,8 +2094,22 @@ func (c *ctx) blockFrom(s *state, b *ssa.BasicBlock, from *ssa.BasicBlock, onPat
 			var parts []string
 			for i, r := range x.Results {
 				v := c.val(s, r)
+				if _, isSig := r.Type().Underlying().(*types.Signature); isSig && (v.fn != nil || v.fnNil) {
+					if v.fnNil {
+						parts = append(parts, "(Go.fnRef \"\")")
+					} else {
+						parts = append(parts, "(Go.fnRef \""+c.t.fnName(v.fn)+"\")")
+					}
+					continue
+				}
 				if v.ptr != nil || v.fn != nil || v.comps != nil || v.iface {
 					fail("returning a non-first-order value")
+				}
+				if v.backed {
+					fail("returning a slice that aliases an array")
+				}
+				if v.fromParam > 0 {
+					c.info.escapes[v.fromParam-1] = true
 				}
 				if _, isI := r.Type().Underlying().(*types.Interface); isI && !isErrorType(r.Type()) {
 					if !v.boxed {
@@ -1891,7 +2144,23 @@ func (c *ctx) blockFrom(s *state, b *ssa.BasicBlock, from *ssa.BasicBlock, onPat
 			}
 			return
 		default:
-			c.instr(s, in, d)
+			ended := func() (ended bool) {
+				defer func() {
+					if r := recover(); r != nil {
+						if _, ok := r.(pathPanics); !ok {
+							panic(r)
+						}
+						ended = true
+					}
+				}()
+				c.instr(s, in, d)
+				return false
+			}()
+			if ended {
+				c.leaves++
+				fmt.Fprintf(&c.out, "%s%s\n", ind(d), c.leaf("(Go.panicked default)"))
+				return
+			}
 		}
 	}
 	fail("block without terminator")
@@ -2072,6 +2341,14 @@ func (t *translator) fnName(fn *ssa.Function) string {
 		pk = pkgShort(fn.Pkg.Pkg)
 	} else if fn.Parent() != nil && fn.Parent().Pkg != nil {
 		pk = pkgShort(fn.Parent().Pkg.Pkg)
+	} else if fn.Signature.Recv() == nil && fn.Signature.Params().Len() > 0 {
+		ty := fn.Signature.Params().At(0).Type()
+		if p, ok := ty.(*types.Pointer); ok {
+			ty = p.Elem()
+		}
+		if n, ok := ty.(*types.Named); ok && n.Obj().Pkg() != nil {
+			pk = pkgShort(n.Obj().Pkg()) + "_" + n.Obj().Name()
+		}
 	}
 	if fn.Signature.Recv() != nil {
 		rt := fn.Signature.Recv().Type()
@@ -2085,12 +2362,49 @@ func (t *translator) fnName(fn *ssa.Function) string {
 	return pk + "_" + name
 }
 
-func (t *translator) translate(fn *ssa.Function) (fi *fnInfo) {
-	if old, ok := t.funcs[fn]; ok {
+func (t *translator) translate(fn *ssa.Function) *fnInfo { return t.translateSpec(fn, nil) }
+
+// translateSpec: `spec` fixes function-typed parameters to known functions (or to nil): the translation of a
+// higher-order function is one first-order translation per way it is called
+func (t *translator) translateSpec(fn *ssa.Function, spec map[int]*ssa.Function) (fi *fnInfo) {
+	key := ""
+	if len(spec) > 0 {
+		var ks []int
+		for k := range spec {
+			ks = append(ks, k)
+		}
+		sort.Ints(ks)
+		for _, k := range ks {
+			if spec[k] == nil {
+				key += fmt.Sprintf("__%snil", fn.Params[k].Name())
+			} else {
+				key += "__" + t.fnName(spec[k])
+			}
+		}
+	}
+	if fn.Synthetic != "" && key == "" {
+		// wrappers (method expressions, bound methods) are created per use: one translation per name
+		if old, ok := t.specs["synthetic "+fn.String()]; ok {
+			t.funcs[fn] = old
+			return old
+		}
+	}
+	if key == "" {
+		if old, ok := t.funcs[fn]; ok {
+			return old
+		}
+	} else if old, ok := t.specs[fn.String()+key]; ok {
 		return old
 	}
-	fi = &fnInfo{fn: fn, name: t.fnName(fn), busy: true, calls: map[*ssa.Function]bool{}, gdeps: map[*types.Package]bool{}, ifaces: map[string]bool{}}
-	t.funcs[fn] = fi
+	fi = &fnInfo{written: map[int]bool{}, escapes: map[int]bool{}, fn: fn, name: t.fnName(fn) + key, busy: true, calls: map[*ssa.Function]bool{}, callsFi: map[*fnInfo]bool{}, spec: spec, specKey: key, gdeps: map[*types.Package]bool{}, ifaces: map[string]bool{}}
+	if key == "" {
+		t.funcs[fn] = fi
+		if fn.Synthetic != "" {
+			t.specs["synthetic "+fn.String()] = fi
+		}
+	} else {
+		t.specs[fn.String()+key] = fi
+	}
 	defer func() {
 		fi.busy = false
 		fi.done = true
@@ -2123,8 +2437,34 @@ func (t *translator) translate(fn *ssa.Function) (fi *fnInfo) {
 			c.usesFuel = true
 		}
 		fi.calls = map[*ssa.Function]bool{}
+		fi.callsFi = map[*fnInfo]bool{}
 		s := &state{env: map[ssa.Value]sym{}, cells: map[int]*cell{}}
 		for i, p := range fn.Params {
+			if _, isSig := p.Type().Underlying().(*types.Signature); isSig {
+				f, fixed := spec[i]
+				if !fixed {
+					fail("parameter of function type %s (not fixed by the caller)", p.Type())
+				}
+				if f == nil {
+					s.env[p] = sym{fnNil: true, typ: p.Type()}
+				} else {
+					s.env[p] = sym{fn: f, typ: p.Type()}
+				}
+				continue
+			}
+			if _, isI := p.Type().Underlying().(*types.Interface); isI && !isErrorType(p.Type()) {
+				// an interface parameter is an abstract object (see invoke); it is taken to be non-nil
+				if _, named := p.Type().(*types.Named); !named {
+					fail("parameter of unnamed interface type")
+				}
+				t.leanType(p.Type())
+				c.ncell++
+				cl := &cell{id: c.ncell, param: i, root: &node{typ: p.Type()}}
+				s.cells[cl.id] = cl
+				c.pcell[i] = cl.id
+				s.env[p] = sym{ptr: &ptrv{cell: cl}, typ: p.Type(), iface: true}
+				continue
+			}
 			if pt, ok := p.Type().Underlying().(*types.Pointer); ok {
 				c.ncell++
 				cl := &cell{id: c.ncell, param: i, root: &node{typ: pt.Elem()}}
@@ -2139,11 +2479,33 @@ func (t *translator) translate(fn *ssa.Function) (fi *fnInfo) {
 					fail("parameter of type %s", p.Type())
 				}
 			}
-			s.env[p] = sym{expr: c.paramName(i), typ: p.Type()}
+			ps := sym{expr: c.paramName(i), typ: p.Type()}
+			if _, isSl := p.Type().Underlying().(*types.Slice); isSl {
+				ps.fromParam = i + 1
+				if fi.written[i] {
+					// elements of this slice are stored into: the list lives in a cell (input and extra result)
+					c.ncell++
+					cl := &cell{id: c.ncell, param: i, root: &node{typ: p.Type()}}
+					s.cells[cl.id] = cl
+					c.pcell[i] = cl.id
+					ps.wcell = cl.id
+				}
+			}
+			s.env[p] = ps
 		}
 		c.block(s, fn.Blocks[0], nil, map[*ssa.BasicBlock]bool{}, 1)
+		if c.rerun {
+			prevSig = "rerun"
+			continue
+		}
+		for i := range fi.written {
+			// the list of a written slice parameter is always an extra result
+			io := ioPath{param: i, field: -1, name: c.paramName(i) + "_val", typ: fn.Params[i].Type()}
+			c.outputs[ioKey(io)] = io
+			c.inputs[ioKey(io)] = io
+		}
 		newOut := sortedIO(c.outputs)
-		sig := fmt.Sprint(fi.selfRec, c.usesFuel, "|")
+		sig := fmt.Sprint(fi.selfRec, c.usesFuel, c.usesDefault, "|")
 		for _, io := range sortedIO(c.inputs) {
 			sig += io.name + ","
 		}
@@ -2161,6 +2523,7 @@ func (t *translator) translate(fn *ssa.Function) (fi *fnInfo) {
 		fi.inputs = sortedIO(c.inputs)
 		fi.outputs = newOut
 		fi.fuel = c.usesFuel
+		fi.needInh = c.usesFuel || c.usesDefault
 		fixedOut = newOut
 		if sig == prevSig && wasSelfRec == fi.selfRec {
 			break
@@ -2173,7 +2536,7 @@ func (t *translator) translate(fn *ssa.Function) (fi *fnInfo) {
 	// signature
 	var ps []string
 	for _, in := range sortedKeys(fi.ifaces) {
-		if fi.fuel {
+		if fi.needInh {
 			ps = append(ps, fmt.Sprintf("{R_%s : Type} [Inhabited R_%s] (I_%s : %s_ops R_%s)", in, in, in, in, in))
 		} else {
 			ps = append(ps, fmt.Sprintf("{R_%s : Type} (I_%s : %s_ops R_%s)", in, in, in, in))
@@ -2183,7 +2546,12 @@ func (t *translator) translate(fn *ssa.Function) (fi *fnInfo) {
 		ps = append(ps, "(fuel : Nat)")
 	}
 	for i, p := range fn.Params {
-		if _, ok := p.Type().Underlying().(*types.Pointer); ok {
+		if _, isSig := p.Type().Underlying().(*types.Signature); isSig {
+			continue
+		}
+		_, isPtr := p.Type().Underlying().(*types.Pointer)
+		_, isI := p.Type().Underlying().(*types.Interface)
+		if isPtr || (isI && !isErrorType(p.Type())) || fi.written[i] {
 			for _, io := range fi.inputs {
 				if io.param == i {
 					ps = append(ps, fmt.Sprintf("(%s : %s)", io.name, t.leanType(io.typ)))
@@ -2236,7 +2604,7 @@ func main() {
 	}
 	prog, _ := ssautil.AllPackages(pkgs, ssa.BuilderMode(0))
 	prog.Build()
-	t := &translator{ifaces: map[string]*types.Named{}, gdefs: map[*types.Package]string{}, gcalls: map[*types.Package]map[*ssa.Function]bool{}, globals: map[*ssa.Global]*node{}, gdone: map[*ssa.Package]bool{}, prog: prog, structs: map[string]*types.Struct{}, funcs: map[*ssa.Function]*fnInfo{}}
+	t := &translator{specs: map[string]*fnInfo{}, ifaces: map[string]*types.Named{}, gdefs: map[*types.Package]string{}, gcalls: map[*types.Package]map[*ssa.Function]bool{}, globals: map[*ssa.Global]*node{}, gdone: map[*ssa.Package]bool{}, prog: prog, structs: map[string]*types.Struct{}, funcs: map[*ssa.Function]*fnInfo{}}
 
 	// library functions of the module (no commands, no tests), in a deterministic order
 	var targets []*ssa.Function
@@ -2255,7 +2623,20 @@ func main() {
 	}
 	sort.Slice(targets, func(i, j int) bool { return targets[i].String() < targets[j].String() })
 	for _, fn := range targets {
-		t.translate(fn)
+		fi := t.translate(fn)
+		// a function that takes a printing callback (`p printer`, called only under `if p != nil`) is also translated
+		// with that callback fixed to nil: what Decode runs
+		if fi.err != "" {
+			spec := map[int]*ssa.Function{}
+			for i, p := range fn.Params {
+				if n, ok := p.Type().(*types.Named); ok && n.Obj().Name() == "printer" {
+					spec[i] = nil
+				}
+			}
+			if len(spec) > 0 {
+				t.translateSpec(fn, spec)
+			}
+		}
 	}
 
 	// group by package
@@ -2264,17 +2645,54 @@ func main() {
 	for _, fi := range t.funcs {
 		all = append(all, fi)
 	}
-	sort.Slice(all, func(i, j int) bool { return all[i].fn.String() < all[j].fn.String() })
+	seenFi := map[*fnInfo]bool{}
+	for _, fi := range all {
+		seenFi[fi] = true
+	}
+	for _, fi := range t.specs {
+		if !seenFi[fi] {
+			seenFi[fi] = true
+			all = append(all, fi)
+		}
+	}
+	{
+		var uniq []*fnInfo
+		seen2 := map[*fnInfo]bool{}
+		for _, fi := range all {
+			if !seen2[fi] {
+				seen2[fi] = true
+				uniq = append(uniq, fi)
+			}
+		}
+		all = uniq
+	}
+	sort.Slice(all, func(i, j int) bool { return all[i].fn.String()+all[i].specKey < all[j].fn.String()+all[j].specKey })
 	ownerPkg := func(fn *ssa.Function) *types.Package {
 		for fn.Pkg == nil && fn.Parent() != nil {
 			fn = fn.Parent()
 		}
-		if fn.Pkg == nil {
-			return nil
+		if fn.Pkg != nil {
+			return fn.Pkg.Pkg
 		}
-		return fn.Pkg.Pkg
+		if o := fn.Object(); o != nil && o.Pkg() != nil {
+			return o.Pkg()
+		}
+		// a synthetic wrapper (method expression, bound method): the package of its first parameter's type
+		if fn.Signature.Params().Len() > 0 {
+			ty := fn.Signature.Params().At(0).Type()
+			if p, ok := ty.(*types.Pointer); ok {
+				ty = p.Elem()
+			}
+			if n, ok := ty.(*types.Named); ok && n.Obj().Pkg() != nil {
+				return n.Obj().Pkg()
+			}
+		}
+		return nil
 	}
 	for _, fi := range all {
+		if fi.err == "" && ownerPkg(fi.fn) == nil {
+			fi.err = "no owning package"
+		}
 		if fi.err == "" {
 			byPkg[ownerPkg(fi.fn)] = append(byPkg[ownerPkg(fi.fn)], fi)
 		}
@@ -2388,8 +2806,8 @@ func main() {
 		fis := byPkg[p]
 		imports := map[string]bool{}
 		for _, fi := range fis {
-			for cal := range fi.calls {
-				if q := ownerPkg(cal); q != p {
+			for cal := range fi.callsFi {
+				if q := ownerPkg(cal.fn); q != p {
 					imports[pkgFile(q)] = true
 				}
 			}
@@ -2418,9 +2836,9 @@ func main() {
 			}
 			emitted[fi] = true
 			var cs []*fnInfo
-			for cal := range fi.calls {
-				if ownerPkg(cal) == p {
-					cs = append(cs, t.funcs[cal])
+			for cal := range fi.callsFi {
+				if ownerPkg(cal.fn) == p {
+					cs = append(cs, cal)
 				}
 			}
 			sort.Slice(cs, func(i, j int) bool { return cs[i].name < cs[j].name })
@@ -2472,9 +2890,9 @@ func main() {
 			continue
 		}
 		if fi.err == "" {
-			fmt.Fprintf(&index, "-- translated   %s  =>  %s\n", fi.fn.String(), fi.name)
+			fmt.Fprintf(&index, "-- translated   %s%s  =>  %s\n", fi.fn.String(), fi.specKey, fi.name)
 		} else {
-			fmt.Fprintf(&index, "-- unsupported  %s : %s\n", fi.fn.String(), fi.err)
+			fmt.Fprintf(&index, "-- unsupported  %s%s : %s\n", fi.fn.String(), fi.specKey, fi.err)
 		}
 	}
 	write("Index.lean", index.String())
